@@ -1360,6 +1360,8 @@ structure RInv (cfg : Cfg) (x : State) (a : A) : Prop where
 /-- rounds the generator produces: the manager's own table entry (uid 0) is never "read from" -/
 def RoundOK (r : Round) : Prop := ∀ rd ∈ r.reads, rd.uid ≠ 0
 
+instance (r : Round) : Decidable (RoundOK r) := by unfold RoundOK; infer_instance
+
 /-- what `Spec.round` leaves before its periodic section, on the model's own events of the round -/
 structure PreTail (cfg : Cfg) (x : State) (a : A) (r : Round) (x2 : State) (T : List Ev) (a7 : A) (lastIO : List Ev) : Prop where
   step : stepR cfg x r = ticks cfg x2
